@@ -383,7 +383,7 @@ class BaseSubscription:
                     matched.add(True)
             if query.kinds is not None:
                 matched.add(event.kind in query.kinds)
-            if query.since:
+            if query.since is not None:
                 matched.add(event.created_at >= query.since)
             if query.until is not None:
                 matched.add(event.created_at < query.until)
